@@ -22,7 +22,7 @@ RULE = (
     "ProjectedConvection3d output divergence-free for white-noise input. NavierStokesVelocity / "
     "KolmogorovFlowVelocity: orders 1-4, drawn nu, drag, forcing, dt, rollouts of up to 20 steps from "
     "divergence-free states with the divergence checked after EVERY step. Non-trivial: input divergence > "
-    "1e-3 of the gradient scale (projection acts) / nonlinear term not negligible in the rollout."
+    "1e-3 of the gradient scale (projection acts) / nonlinear term not negligible in the rollout. make_incompressible with indexing=xy against the axis-swapped ij result within an ij/xy/ij call history; linearity on a 1e-9-scaled and on a nearly solenoidal field."
 )
 ASSUMPTIONS = ["float64 session", "histories stop without failure if the state exceeds 1e3 (unstable dt)"]
 
